@@ -2523,3 +2523,50 @@ pub(crate) fn h_c20_deviations_4() { c20_deviation(4, 8); }
 pub(crate) fn h_c20_deviations_5() { c20_deviation(5, 8); }
 pub(crate) fn h_c20_deviations_6() { c20_deviation(6, 8); }
 pub(crate) fn h_c20_deviations_7() { c20_deviation(7, 8); }
+
+/// C04: every parameter of every element is readable from the model under the field name the reference grammar gives
+/// it (documents and accessor expressions generated from the frozen DSL)
+fn grammar_readback(chunk: u32, chunks: u32) {
+    let n = crate::verif_rb::N_READBACK;
+    vrt_cover(n > 0, "readback documents are in place");
+    if n == 0 { return; }
+    let per = (n + chunks - 1 - chunk) / chunks;
+    let k = chunk + chunks * vrt_choice(per);
+    match load_from_string(crate::verif_rb::readback_doc(k), None, true) {
+        Ok((file, log)) => {
+            vrt_check(log.is_empty(), "C04 an element in its specified form loads in strict mode without any diagnostic (readback document)");
+            vrt_check(crate::verif_rb::readback_check(k, &file), "C04 every parameter value is readable from the model under the name and at the position the reference grammar specifies");
+        }
+        Err(_) => vrt_check(false, "C04 an element in its specified form is accepted in strict mode (readback document)"),
+    }
+    vrt_observe_u64(k as u64);
+}
+pub(crate) fn h_grammar_readback_0() { grammar_readback(0, 2); }
+pub(crate) fn h_grammar_readback_1() { grammar_readback(1, 2); }
+
+/// C07 over the whole grammar: an unknown keyword with three arguments directly in front of every element of the
+/// reference grammar, inside the element's real parent block (its generated TAG_LIST is the stop list)
+fn unknown_before_element(chunk: u32, chunks: u32) {
+    let n = crate::verif_rb::N_UNK;
+    vrt_cover(n > 0, "unknown-element documents are in place");
+    if n == 0 { return; }
+    let per = (n + chunks - 1 - chunk) / chunks;
+    let k = chunk + chunks * vrt_choice(per);
+    let (with_unknown, reference) = crate::verif_rb::unk_doc(k);
+    let (ref_file, _) = load_from_string(reference, None, true).unwrap();
+    match load_from_string(with_unknown, None, false) {
+        Ok((file, log)) => {
+            vrt_check(log.len() == 1, "C07 an unknown element in front of a known one is skipped with exactly one warning");
+            vrt_check(file == ref_file, "C07 the rest of the file is loaded exactly as if the unknown element were not there (every element of the grammar)");
+            vrt_check(crate::verif_fp::fingerprint(&file) == crate::verif_fp::fingerprint(&ref_file), "C07 every data field of the model is the same as without the unknown element");
+        }
+        Err(_) => vrt_check(false, "C07 non-strict mode skips an unknown element in front of a known one"),
+    }
+    match load_from_string(with_unknown, None, true) {
+        Ok(_) => vrt_check(false, "C07 strict mode rejects an unknown element"),
+        Err(e) => vrt_check(parser_error_variant(&e) == "UnknownSubBlock", "C07 the strict-mode error is the unknown-element error"),
+    }
+    vrt_observe_u64(k as u64);
+}
+pub(crate) fn h_unknown_before_element_0() { unknown_before_element(0, 2); }
+pub(crate) fn h_unknown_before_element_1() { unknown_before_element(1, 2); }
